@@ -310,6 +310,14 @@ func init() {
 					}
 				}
 				c.Check(rOK, impl.pkg+"."+impl.name+".FlushAppConn returns the flush error", w.pos(ff.Pos()), "error propagated", "FlushSync's error is not what FlushAppConn returns")
+				// the caller holds the update lock across flush, commit and update: the flush must not open it
+				unl := 0
+				for _, in := range callInstrs(ff) {
+					if d, ok := describeCallee(in); ok && (d.Name == "Unlock" || d.Name == "RUnlock") && strings.HasSuffix(d.Recv, "Mutex") {
+						unl++
+					}
+				}
+				c.Check(unl == 0, impl.pkg+"."+impl.name+".FlushAppConn keeps the update lock closed", w.pos(ff.Pos()), "no unlock inside the flush", "FlushAppConn releases the mempool lock while flushing: a CheckTx admitted in that window is in flight on the mempool connection when the application commits")
 			}
 		}
 	})
